@@ -72,7 +72,14 @@ TRUSTED = [
 ASSUMPTIONS = ["exact arithmetic in the theorems; implementation compared to 1e-7 on amplitudes, 1e-12 on losses",
                "generated vectors keep Schmidt coefficients outside (1e-12, 1e-3), except 24 deliberately placed 'svcut' cases with one "
                "coefficient a factor 3 below / above the 1e-7 rank cut (3.3e-8, 3e-7), compared to 3e-6 on amplitudes",
-               "n >= 2 (a one-qubit input never reaches the search)"]
+               "n >= 2 (a one-qubit input never reaches the search)",
+               "input-diversity cases: light tails / Schmidt coefficients of 1e-3 .. 1e-6 go through the circuit only where no factor of >= 3 "
+               "qubits has to be prepared exactly (n = 2, factors of <= 2 qubits); otherwise the property is read off the returned plan "
+               "(adaptive_approximation directly, or gate.node).  Four fixed probes keep the excluded band visible: a deviation there that "
+               "vanishes with qclib.unitary._apply_a2 bypassed is reported as baa:dense-a2-precision:*, the UCGate kernel raise as "
+               "baa:ucgate-kernel-raises:* (root causes K-C07-1 / K-C01-1 / K-C06-1 resp. K-C03-2)",
+               "float32 / complex64 inputs: exactly representable ones are held to 1e-7; generic ones may be rejected with the documented "
+               "ValueError (norm check) or must be right for the up-cast input to 1e-5"]
 RULE = ("tie: (vector, max_fidelity_loss, strategy, max_combination_size, use_low_rank) on which the real adaptive_approximation "
         "was executed with _reduce_entanglement / schmidt_decomposition / cnot_count recorded and the model replayed; oracle: the "
         "same calls, Statevector of the real definition vs input / plan tensor / budget / true loss / cx counts; non-trivial = "
@@ -310,6 +317,10 @@ def case_key(check, c):
 def run_case(c):
     """Executed in a worker process.  Returns dict(op, impl, checks=[(key, ok, detail, nontrivial)],
     counts=[...], anomalies=[...])."""
+    if c.get("entry") == "aa":        # input-diversity: adaptive_approximation called directly (plan-level oracle, no circuit)
+        return run_aa_case(c)
+    if c.get("alts"):                 # several candidate states: the first whose plan has a rank>1 leaf followed by another factor
+        c = _pick_alt(c)
     from qiskit.quantum_info import Statevector
     from qclib.state_preparation import BaaLowRankInitialize, LowRankInitialize
     n = c["n"]
@@ -324,14 +335,24 @@ def run_case(c):
     rep.update({k: c[k] for k in ("form", "iso", "uni", "qubits", "rsvd_seed", "tol") if k in c})
     static_qubits = None
     host = None
+    dv = None
+    if form.startswith("dv-"):        # input-diversity call forms: the whole case is the replay (see _dv_construct)
+        rep["case"] = c
+        rep["call"] = _dv_describe(c)
     if n >= 14:
         # schmidt_decomposition switches to randomized_svd (module-level unseeded generator): seed it so
         # that the run is a function of VERIF_SEED (module state only, /repo untouched)
         import qclib.entanglement as _ent
         _ent._rng = np.random.default_rng(c.get("rsvd_seed", 0))
     try:
+        if form.startswith("dv-"):
+            # gate(s) / host built in the requested element type and call form; only the definitions of the OTHER objects of
+            # the form (the copy, the second construction ...) are read here, outside the recording wrappers
+            dv = _dv_construct(c)
         with Recorder() as R:
-            if form == "none":            # opt_params=None: every option at its default
+            if dv is not None:
+                gate, host, static_qubits = dv["gate"], dv["host"], dv["static_qubits"]
+            elif form == "none":            # opt_params=None: every option at its default
                 gate = BaaLowRankInitialize(list(v))
             elif form == "empty":         # opt_params={}: every .get() is None
                 gate = BaaLowRankInitialize(list(v), opt_params={})
@@ -357,9 +378,19 @@ def run_case(c):
                 gate = BaaLowRankInitialize(list(v), opt_params=opt)
             defn = gate.definition
     except Exception as e:  # qclib raised on a valid input
+        if c.get("expect") == "reject-or-close" and isinstance(e, ValueError) and "amplitudes-squared" in str(e):
+            # reduced-precision dtype whose up-cast value is not a unit vector to 1e-10: the documented rejection
+            res["counts"].append("diversity:reduced-precision:documented-rejection(ValueError)")
+            res["checks"].append((case_key("reduced-precision-rejected", c), True, "", True, rep))
+            return res
         res["checks"].append((case_key("raises", c), False, f"{type(e).__name__}: {e}", True, rep))
         return res
     node = gate.node
+    if c.get("expect") == "reject-or-close":
+        # accepted: the result must be right for the (normalised) up-cast input to 1e-5
+        res["counts"].append("diversity:reduced-precision:accepted")
+        v = v / np.linalg.norm(v)
+        tol = max(tol, 1e-5)
     if form != "opt":
         res["counts"].append("branch:call-form:" + form)
     if n >= 14:
@@ -377,7 +408,8 @@ def run_case(c):
     for inst in defn.data:
         impl.append("wires" + _nums(defn.find_bit(q).index for q in inst.qubits))
     res["impl"] = impl
-    res["op"] = {"op": "baa", "n": n, "root": R.vid(v), "strategy": c["s"], "maxK": c["c"], "ulr": bool(c["u"]),
+    root_vec = v if dv is None else np.asarray(gate.params, dtype=complex)     # what the gate really handed to the search
+    res["op"] = None if c.get("notie") else {"op": "baa", "n": n, "root": R.vid(root_vec), "strategy": c["s"], "maxK": c["c"], "ulr": bool(c["u"]),
                  "maxLoss": enc_loss(c["l"]), "schmidt": list(R.table.values()),
                  "cnots": [{"v": k[0], "p": None if k[1] is None else list(k[1]), "lr": k[2], "c": cc}
                            for k, cc in R.cn.items()],
@@ -399,6 +431,9 @@ def run_case(c):
     # ---- the options every factor of the plan was handed (baa_lowrank.py:139-149): ITS OWN rank / bipartition or none ----
     exp_iso = c["iso"] if form == "schemes" else "ccd"
     exp_uni = c["uni"] if form == "schemes" else "qsd"
+    if dv is not None:
+        exp_iso, exp_uni = dv["iso"], dv["uni"]
+        res["counts"] += _dv_plan_counts(c, node)
     probs = []
     if len(R.lri_calls) != len(node.vectors):
         probs.append(f"{len(R.lri_calls)} LowRankInitialize calls for {len(node.vectors)} factors")
@@ -434,9 +469,38 @@ def run_case(c):
             res["counts"].append("boundary:plan:two-lowrank-leaves")
     # ---- oracle ----
     l_eff = c["l"] if 0 <= c["l"] <= 1 else 0.0
+    if c.get("lighttail") and max(len(q) for q in node.qubits) >= 3:
+        # light tails (1e-3 .. 1e-6) inside a factor of >= 3 qubits: its exact preparation runs into the precision limit of qiskit's
+        # A.2 pass / the UCGate kernel (see the header of the diversity section) - the property is read off the plan instead
+        res["counts"].append("diversity:light-tail:factor>=3-qubits:plan-level-oracle")
+        for k in _plan_checks(c, node, v, R, rep, tol, False, "planlevel:"):
+            (res["counts"].append(k[1]) if k[0] == "count" else res["checks"].append(k))
+        if dv is not None and dv.get("host") is not None and c["form"] == "dv-static":
+            wires = [dv["host"].find_bit(q).index for q in dv["host"].data[-1].qubits]
+            res["checks"].append((case_key("host-wires", c), wires == dv["static_qubits"] and dv["appended"] == 1,
+                                  f"appended on wires {wires}, asked {dv['static_qubits']}", True, rep))
+        return res
     try:
         sv = np.asarray(Statevector(defn).data)
     except Exception as e:
+        import traceback
+        tb = traceback.format_exc()
+        bad_blocks = []
+        if c.get("a2class") and "generalized_gates/uc.py" in tb and "_dec_ucg" in tb and "not unitary" in str(e):
+            _classify_raise(node, bad_blocks)      # every 2x2 block qclib's Lemma 2 hands to UCGate is unitary to 1e-9?
+        if c.get("a2class") and "generalized_gates/uc.py" in tb and "_dec_ucg" in tb and "not unitary" in str(e) and not bad_blocks:
+            # qiskit's UCGate kernel rejecting its own 2x2 factors inside isometry 'ccd' on columns with entries of 1e-9 .. 1e-17
+            # (K-C03-2 for isometry.decompose): reported under its own key
+            res["counts"].append("ucgate-kernel:exact preparation of a factor with a light tail")
+            msg = (f"simulating the definition raised {type(e).__name__}: {e} from qiskit's UCGate._dec_ucg (isometry ccd of a "
+                   f"factor with a light tail); plan qubits={node.qubits} ranks={node.ranks}")
+            if DV_KNOWN_ROOT_CAUSE_AS_FAILURE:
+                res["checks"].append((case_key("ucgate-kernel-raises", c), False, msg, True, rep))
+            else:
+                res["anomalies"].append("known root cause (K-C03-2), not counted as a C08 failure: " + case_key("ucgate-kernel-raises", c) + ": " + msg)
+                for k in _plan_checks(c, node, v, R, rep, tol, False, "planlevel:"):
+                    (res["counts"].append(k[1]) if k[0] == "count" else res["checks"].append(k))
+            return res
         # the factors' own definitions are built lazily, while the circuit is simulated: qclib (or the qiskit kernel under it)
         # raised on a valid input
         why = _classify_raise(node)
@@ -465,7 +529,10 @@ def run_case(c):
         else:
             res["checks"].append((case_key("node-state-vector", c), False,
                                   f"node.state_vector() raised {type(e).__name__}: {e}", True, rep))
-    if host is not None:
+    if dv is not None:
+        for name, okc, detail in _dv_post(c, dv, gate, defn, sv, v, tol):
+            res["checks"].append((case_key(name, c), okc, detail, True, rep))
+    elif host is not None:
         # the appended instruction sits on the requested wires and the host circuit prepares the state there
         wires = [host.find_bit(q).index for q in host.data[0].qubits]
         hv = np.asarray(Statevector(host).data)
@@ -505,7 +572,7 @@ def run_case(c):
         true_loss = 1.0 - abs(np.vdot(v, sv)) ** 2
         res["checks"].append((case_key("trueloss", c), true_loss <= l_eff + 1e-9,
                               f"true loss {true_loss!r} > allowed {l_eff!r} (plan loss {tl!r})", True, rep))
-        res["checks"].append((case_key("trueloss-eq", c), abs(true_loss - tl) <= 1e-9,
+        res["checks"].append((case_key("trueloss-eq", c), abs(true_loss - tl) <= (1e-6 if c.get("expect") == "reject-or-close" else 1e-9),
                               f"true loss {true_loss!r} vs accounted {tl!r}", True, rep))
     if c.get("do_cx"):
         cb = cx_count(defn)
@@ -529,10 +596,12 @@ def run_case(c):
         res["counts"].append("cx:compared")
         res["checks"].append((case_key("cx", c), cb <= cl, f"BAA circuit {cb} cx > LowRankInitialize {cl} cx "
                               f"(plan saved {node.total_saved_cnots})", True, dict(rep, cx_baa=cb, cx_lowrank=cl)))
+    if c.get("a2class"):
+        _dv_classify_a2(c, gate, v, tol, l_eff, res, rep)
     return res
 
 
-def _classify_raise(node):
+def _classify_raise(node, seen_out=None):
     """Failure path only: rebuild every factor of the plan with a spy on qclib.isometry._unitary (Lemma 2).  Returns
     'subnormal-pair' when a pair of amplitudes of norm < 1e-150 (squares subnormal: np.linalg.norm is then off by several
     percent) produced a 2x2 matrix that is not unitary, else ''."""
@@ -558,6 +627,8 @@ def _classify_raise(node):
                 pass
     finally:
         qi._unitary = orig
+    if seen_out is not None:
+        seen_out.extend(seen)
     return "subnormal-pair" if any(0.0 < nrm < 1e-150 for nrm, _ in seen) else ""
 
 
@@ -973,6 +1044,1036 @@ def gen_boundary_cases(ctx):
 
 
 # ---------------------------------------------------------------------------------------------
+# input-diversity cases: FORMS of otherwise ordinary inputs (element types, scale structure, sign / phase structure,
+# call forms, loop-count sizes) for every public entry point of the property
+# ---------------------------------------------------------------------------------------------
+#
+# entry points:  CLS = BaaLowRankInitialize(params, label, opt_params).definition
+#                STA = BaaLowRankInitialize.initialize(circuit, state, qubits, opt_params)          (static helper)
+#                AA  = util.baa.adaptive_approximation(state_vector, max_fidelity_loss, strategy, max_combination_size, use_low_rank)
+#
+# form                                                   CLS            STA            AA            where generated
+# 1 int list / int64 (signed basis states)               dv-class       dv-static      aa            _dv_elem_types
+#   tuple / list of numpy scalars / mixed-kind list      dv-class       dv-static      aa            _dv_elem_types
+#   float64 real with negative entries, python floats    dv-class       dv-static      aa            _dv_elem_types
+#   complex128 with zero imaginary part, negative zeros  dv-class       dv-static      aa            _dv_elem_types
+#   float32 / complex64 exactly representable            dv-class       dv-static      aa(no tie)    _dv_elem_types
+#   float32 / complex64 generic (reject or 1e-5)         dv-class       dv-static      aa(no tie)    _dv_elem_types
+#   max_fidelity_loss int / np.float32 / np.float64,     dv-class       dv-static      aa            _dv_option_types
+#   max_combination_size np.int64, use_low_rank 0 / 1
+# 2 separable over interleaved groups, head+tail factors dv-class       dv-static      aa            _dv_scale
+#   heavy qubit (x) light-tail qubits                    dv-class       dv-static      aa            _dv_scale
+#   tiny entanglement across a cut (s = 1e-3..1e-6)      dv-class n=2   -              aa n=2..4     _dv_scale (+ 'a2probe', see below)
+#   uniform / GHZ / sparse / single amplitude / sub-tree dv-class       dv-static      aa            _dv_scale
+# 3 all-negative, purely imaginary, global phase -1 / i, dv-class       dv-static      aa            _dv_phases
+#   entries +-1 +-i, product of |+> |-> |+i> |-i>
+# 4 opt_params omitted / None / {} / each key alone /    dv-class       dv-static      aa: positional / keyword / mixed / defaults
+#   all keys / EVERY key non-default                                                                 _dv_call_forms
+#   same dict object reused, contents changed between    dv-reuse       -              -             _dv_call_forms
+#   same state object reused with two budgets            dv-reuse       -              aa (input untouched check on every aa case)
+#   label=, copy() before .definition, inverse(),        dv-class / dv-copy / dv-inverse / dv-twice / dv-togate
+#   gate appended twice, to_gate()/to_instruction()
+#   host larger than needed, permuted non-contiguous     -              dv-static: ints / tuple / Qubit objects / register slices /
+#   qubit lists, several registers in different orders,                 whole register / mixed, qubits omitted / None, opt_params
+#   idle host qubits in a non-trivial state                             omitted / None / partial / full
+# 5 n = 1 (nothing to split), 2, 3, 4, 5                 dv-class       dv-static      aa            _dv_sizes + all families
+#   plans with 1 / 2 / 3+ factors, factors of 1 / 2 / 3+ counted from the plans found:  diversity:plan:*
+#   qubits, ranks 1 / 2 / 4
+#   rank>1 leaf FOLLOWED by further factors, every       dv-class       dv-static      aa            _dv_sizes ('lrfollow', n = 8;
+#   strategy and several option forms                                                                 pre-screened with the real search)
+#
+# Tie: every case is recorded with the same wrappers as the grid cases and replayed by Drivers/C08.lean (the model sees the search
+# through the recorded Schmidt answers, keyed by the complex128 image of each vector, so every element type the real code converts
+# is tied; AA cases without the wire lines).  Oracle only: float32 / complex64 handed to AA directly (numpy then computes the
+# losses in float32, the model in doubles), n = 1 (the model's root node has no split to replay), everything that concerns the
+# call form itself (placement on a host, dict / array not mutated, copies, inverse).
+#
+# Excluded band, and how it is probed: a factor of >= 3 qubits that is prepared EXACTLY while one of its Schmidt coefficients
+# lies in (1e-7, ~3e-4) hits the precision limit of qiskit's A.2 / two-qubit Weyl pass inside LowRankInitialize (error up to
+# 2.4e-5; K-C07-1 / K-C01-1 / K-C06-1 for the other initialisers).  Light tails therefore go through the circuit only in factors
+# of <= 2 qubits (and whole states at n = 2); larger ones are evaluated on the plan (AA).  A few deliberate 'a2probe' cases keep
+# the band visible: a failure there is re-run with qclib.unitary._apply_a2 bypassed and, when that removes the error, reported
+# under the narrow key baa:dense-a2-precision:... instead of baa:plan / baa:exact0.
+
+# The deliberate probes of the excluded band ('a2probe', 'ucgprobe'): a deviation that the re-run classifies as the A.2 precision limit
+# / the UCGate kernel raise has the same root cause as K-C07-1 / K-C01-1 / K-C06-1 resp. K-C03-2 (LowRankInitialize and qiskit are in
+# the trusted base of this check).  False: counted ("a2-precision:*", "ucgate-kernel:*") and noted, not a failure of C08.  True: reported
+# as ctx.fail under baa:dense-a2-precision:* / baa:ucgate-kernel-raises:* - switch on once known_findings.json lists them for C08
+# (otherwise the unchanged tree exits 1 and every seeded run looks detected).
+DV_KNOWN_ROOT_CAUSE_AS_FAILURE = True
+
+# fixed probes of the excluded band, the same on every seed: _almost_separable(n, cut, s^2, default_rng(seed)) at budget 0, and one
+# literal 5-qubit product state (groups {0} {2} {4} {1,3}, head 1, tails 1e-4; hex floats, re im re im ...) on which the UCGate
+# kernel raises (knife-edge: a relative perturbation of 1e-12 removes the raise)
+DV_A2_PROBES = [(3, [1], 1e-5, 1), (4, [1], 3e-5, 0), (4, [0, 2], 1e-4, 0)]
+DV_UCG_PROBE = (
+    "-0x1.387380a61fdebp-41 0x1.8c778e9e739c9p-41 -0x1.b5f19c9cd6e6dp-54 0x1.17ea93b0c00d9p-56 -0x1.8d26da922edf1p-41 -0x1.25d28e33b0929p-41 "
+    "-0x1.4610f4039b263p-56 -0x1.aa51cd57d2650p-54 -0x1.be5716a2667c4p-29 0x1.f480096e05b15p-28 -0x1.ba3d67a7cdd97p-41 0x1.7cb27dcd5940bp-42 "
+    "-0x1.f041b021a757fp-28 -0x1.96c412b2ba27fp-29 -0x1.8ec92c11ab4a7p-42 -0x1.aaee9dfa3de04p-41 -0x1.617f45b326c76p-39 -0x1.680f058b1ef59p-45 "
+    "-0x1.c1f068712839ep-53 -0x1.ac59ef1b1daccp-53 0x1.047e007e1534fp-26 -0x1.f8082022c76f5p-28 0x1.e699400c4f0a1p-40 0x1.270b6a4c03e4ep-41 "
+    "-0x1.758428c8ebd84p-26 0x1.611dfdf775090p-28 -0x1.25d450f5333f8p-39 -0x1.4ae49e59c022bp-40 0x1.e11f2f6961322p-14 -0x1.940d12fea5efdp-14 "
+    "0x1.13b3a70e4edb8p-26 0x1.9950c68e00958p-31 0x1.0d03e05cdca36p-29 0x1.84c0971868e2bp-28 -0x1.21534b39e215fp-42 0x1.4b34203b381a4p-41 "
+    "-0x1.784657a203537p-28 0x1.1e586b3508583p-29 -0x1.484e305957200p-41 -0x1.0744cdf2e8c8fp-42 0x1.ea4c68b29679cp-16 0x1.754690d7f1203p-15 "
+    "-0x1.ffdc186be13a0p-31 0x1.831af2aef76e8p-28 -0x1.65d5d8343e49fp-15 0x1.f5e2fa27d1526p-16 -0x1.7c955d3d41555p-28 -0x1.9859f2bcdcda0p-31 "
+    "-0x1.3ebfd61ef80fcp-27 0x1.e0075543efb3ap-27 -0x1.ebc7e285a4a4fp-40 0x1.e0cc51a81f7c3p-42 0x1.c295260fa93adp-17 -0x1.d4405a6e671bep-14 "
+    "0x1.3b44805ab1591p-27 -0x1.0ce4aa9ce44ebp-27 -0x1.9f0fbbdbcae54p-15 0x1.270f18c954874p-13 -0x1.e583c119fa5d0p-27 0x1.018bf00815deep-27 "
+    "-0x1.060633d0b52c7p-3 -0x1.fbcaced2023bdp-1 0x1.042142a50c247p-14 -0x1.6efe431e34280p-14 ")
+
+DV_DEFAULTS = {"l": 0.0, "s": "greedy", "c": 0, "u": False, "iso": "ccd", "uni": "qsd"}     # documented in both docstrings
+DV_OPT_KEYS = ["max_fidelity_loss", "strategy", "max_combination_size", "use_low_rank"]
+
+
+def _mk_params(pairs, etype):
+    """The state in the requested element type.  `pairs` always holds the exact (up-cast) values."""
+    z = [complex(a, b) for a, b in pairs]
+    re = [float(a) for a, _ in pairs]
+    if etype in (None, "list-complex"):
+        return list(z)
+    if etype == "list-int":
+        return [int(a) for a in re]
+    if etype == "list-float":
+        return list(re)
+    if etype == "tuple":
+        return tuple(z)
+    if etype == "tuple-float":
+        return tuple(re)
+    if etype == "list-npscalars":
+        return [np.complex128(x) for x in z]
+    if etype == "list-npfloat":
+        return [np.float64(a) for a in re]
+    if etype == "list-npfloat32":
+        return [np.float32(a) for a in re]
+    if etype == "list-mixed":          # int zeros, python floats, numpy scalars and complex numbers in one list
+        out = []
+        for k, (a, b) in enumerate(pairs):
+            if a == 0 and b == 0:
+                out.append(0 if k % 2 == 0 else np.float64(0.0))
+            elif b == 0:
+                out.append(float(a) if k % 2 == 0 else np.float64(a))
+            else:
+                out.append(complex(a, b) if k % 2 == 0 else np.complex128(complex(a, b)))
+        return out
+    if etype == "int64":
+        return np.array([int(a) for a in re], dtype=np.int64)
+    if etype in ("float64", "float32"):
+        return np.array(re, dtype=etype)
+    if etype in ("complex128", "complex64"):
+        return np.array(z, dtype=etype)
+    if etype == "negzero":             # every zero component is a NEGATIVE zero
+        return [complex(-0.0 if a == 0 else a, -0.0 if b == 0 else b) for a, b in pairs]
+    if etype == "negzero-float":
+        return [(-0.0 if a == 0 else float(a)) for a in re]
+    raise ValueError(etype)
+
+
+def _typed(x, t):
+    if t in (None, "py"):
+        return x
+    if t == "int":
+        return int(x)
+    if t == "float":
+        return float(x)
+    if t == "bool":
+        return bool(x)
+    return getattr(np, t)(x)           # np.float32 / np.float64 / np.int64 / np.int32 / np.bool_
+
+
+def _mk_opt(c, which=None):
+    """opt_params in the requested form.  okeys: 'omitted' (argument not passed) / 'none' / list of the keys present; the
+    values of c['l'], c['s'], c['c'], c['u'], c['iso'], c['uni'] are the EFFECTIVE ones (documented default where a key is
+    absent - the generator guarantees that)."""
+    okeys = c.get("okeys", DV_OPT_KEYS)
+    if okeys in ("omitted", "none"):
+        return None
+    full = {"max_fidelity_loss": _typed(c["l"], c.get("ltype")), "strategy": c["s"],
+            "max_combination_size": _typed(c["c"], c.get("ctype")), "use_low_rank": _typed(c["u"], c.get("utype")),
+            "iso_scheme": c.get("iso", "ccd"), "unitary_scheme": c.get("uni", "qsd")}
+    return {k: full[k] for k in okeys}
+
+
+def _same_params(p, snap):
+    """the caller's state object still holds what it held (type, dtype, every component bit for bit incl. the sign of zeros)"""
+    if type(p) is not type(snap[0]):
+        return False
+    if isinstance(p, np.ndarray):
+        return p.dtype == snap[0].dtype and p.tobytes() == snap[0].tobytes()
+    return len(p) == len(snap[0]) and all(type(a) is type(b) and repr(a) == repr(b) for a, b in zip(p, snap[0]))
+
+
+def _snap_params(p):
+    import copy
+    return (copy.deepcopy(p),)
+
+
+def _dv_describe(c):
+    f = c["form"]
+    o = "" if c.get("okeys") == "omitted" else ", opt_params=" + ("None" if c.get("okeys") == "none" else "{" + ", ".join(c.get("okeys", DV_OPT_KEYS)) + "}")
+    if f == "dv-static":
+        h = c["host"]
+        return (f"BaaLowRankInitialize.initialize(QuantumCircuit({', '.join(f'{a}[{k}]' for a, k in h['regs'])}), "
+                f"<{c.get('etype') or 'list-complex'}>, qubits=<{h['qkind']} {h.get('sel')}>{o})")
+    return f"{f}: BaaLowRankInitialize(<{c.get('etype') or 'list-complex'}>" + (", label='psi'" if c.get("label") else "") + o + ")"
+
+
+def _new_gate(c, P, opt_obj=None, use_obj=False):
+    from qclib.state_preparation import BaaLowRankInitialize
+    kw = {}
+    if c.get("label"):
+        kw["label"] = "psi"
+    if use_obj:
+        kw["opt_params"] = opt_obj
+    elif c.get("okeys") != "omitted":
+        kw["opt_params"] = _mk_opt(c)
+    return BaaLowRankInitialize(P, **kw), kw.get("opt_params")
+
+
+def _idle_amp(q):
+    th = 0.4 + 0.37 * q
+    return th, (math.cos(th / 2), math.sin(th / 2))
+
+
+def _build_host(h):
+    """host circuit from its register list (in creation order), idle qubits rotated into a non-trivial state"""
+    from qiskit import QuantumCircuit, QuantumRegister
+    regs = {a: QuantumRegister(k, a) for a, k in h["regs"]}
+    host = QuantumCircuit(*[regs[a] for a, _ in h["regs"]])
+    return host, regs
+
+
+def _embed(host_n, placements, idle):
+    """amplitude at host index I = product over placements of sv[x], bit k of x = bit listed_qubits[k] of I, times the
+    amplitudes of the idle qubits"""
+    idx = np.arange(2 ** host_n)
+    out = np.ones(2 ** host_n, dtype=complex)
+    for sv, qs in placements:
+        x = np.zeros(2 ** host_n, dtype=int)
+        for k, q in enumerate(qs):
+            x |= ((idx >> q) & 1) << k
+        out = out * np.asarray(sv)[x]
+    for q, (a0, a1) in idle.items():
+        out = out * np.where((idx >> q) & 1, a1, a0)
+    return out
+
+
+def _dv_construct(c):
+    """Builds the objects of a diversity call form.  Returns the gate to evaluate (definition NOT read yet), the host, the
+    listed qubits and what the post-checks need."""
+    from qiskit import QuantumCircuit
+    from qiskit.quantum_info import Statevector
+    from qclib.state_preparation import BaaLowRankInitialize
+    import copy
+    form = c["form"]
+    n = c["n"]
+    P = _mk_params(c["vec"], c.get("etype"))
+    okeys = c.get("okeys", DV_OPT_KEYS)
+    dv = {"host": None, "static_qubits": None, "P": P, "P_snap": _snap_params(P), "opt_obj": None, "opt_snap": None,
+          "iso": c.get("iso", "ccd") if (okeys not in ("omitted", "none") and "iso_scheme" in okeys) else "ccd",
+          "uni": c.get("uni", "qsd") if (okeys not in ("omitted", "none") and "unitary_scheme" in okeys) else "qsd"}
+    if form in ("dv-class", "dv-inverse", "dv-togate"):
+        gate, o = _new_gate(c, P)
+        dv.update(gate=gate, opt_obj=o, opt_snap=copy.deepcopy(o))
+    elif form == "dv-copy":
+        g, o = _new_gate(c, P)
+        g2 = g.copy()                                     # before any definition exists
+        mine, other = (g, g2) if c["which"] == 0 else (g2, g)
+        dv["other_sv"] = np.asarray(Statevector(other.definition).data)
+        dv.update(gate=mine, opt_obj=o, opt_snap=copy.deepcopy(o))
+    elif form == "dv-reuse":
+        # two constructions; the SAME dict object (contents replaced in between) and / or the SAME state object
+        oth = c["other"]
+        mine_opt = _mk_opt(c)
+        seq = [("mine", mine_opt), ("other", oth["opt"])] if c["which"] == 0 else [("other", oth["opt"]), ("mine", mine_opt)]
+        P_other = P if c.get("share_array") else _mk_params(oth["vec"], c.get("etype"))
+        shared = {}
+        gates = {}
+        for name, o in seq:
+            if c.get("share_dict"):
+                shared.clear()
+                shared.update(o)
+                d = shared
+            else:
+                d = dict(o)
+            gates[name] = BaaLowRankInitialize(P if name == "mine" else P_other, opt_params=d)
+        dv["shared_dict"] = shared if c.get("share_dict") else None
+        dv["shared_expect"] = copy.deepcopy(seq[-1][1])
+        osv = np.asarray(Statevector(gates["other"].definition).data)
+        on = gates["other"].node
+        dv["other_detail"] = (float(np.abs(osv - plan_tensor(gates["other"].num_qubits, on.vectors, on.qubits)).max()), float(on.total_fidelity_loss),
+                              float(oth["opt"].get("max_fidelity_loss", 0.0)), oth["opt"].get("strategy", "greedy"),
+                              gates["other"].opt_params.strategy, float(gates["other"].opt_params.max_fidelity_loss))
+        dv.update(gate=gates["mine"])
+    elif form == "dv-twice":
+        gate, o = _new_gate(c, P)
+        host = QuantumCircuit(c["host_n"])
+        l1, l2 = c["place"]
+        idle = {}
+        for q in range(c["host_n"]):
+            if q not in l1 and q not in l2:
+                th, amp = _idle_amp(q)
+                host.ry(th, q)
+                idle[q] = amp
+        host.append(gate, list(l1))
+        host.append(gate, list(l2))
+        dv.update(gate=gate, host=host, static_qubits=list(l1), idle=idle, opt_obj=o, opt_snap=copy.deepcopy(o))
+    elif form == "dv-static":
+        h = c["host"]
+        host, regs = _build_host(h)
+        qk = h["qkind"]
+        if qk in ("omitted", "none"):
+            listed = list(range(host.num_qubits))
+            qarg = None
+        elif qk == "slices":
+            qarg = []
+            for a, start, stop, step in h["slices"]:
+                qarg += list(regs[a][slice(start, stop, step)])
+            listed = [host.find_bit(q).index for q in qarg]
+        elif qk == "register":
+            qarg = regs[h["reg"]]
+            listed = [host.find_bit(q).index for q in qarg]
+        else:
+            listed = list(h["sel"])
+            if qk == "int":
+                qarg = list(listed)
+            elif qk == "tuple":
+                qarg = tuple(listed)
+            elif qk == "qubit":
+                qarg = [host.qubits[i] for i in listed]
+            elif qk == "mixed":
+                qarg = [host.qubits[i] if k % 2 == 0 else i for k, i in enumerate(listed)]
+            else:
+                raise ValueError(qk)
+        idle = {}
+        for q in range(host.num_qubits):
+            if q not in listed:
+                th, amp = _idle_amp(q)
+                host.ry(th, q)
+                idle[q] = amp
+        kw = {}
+        if qk != "omitted":
+            kw["qubits"] = qarg
+        o = None
+        if okeys != "omitted":
+            o = _mk_opt(c)
+            kw["opt_params"] = o
+        before = len(host.data)
+        BaaLowRankInitialize.initialize(host, P, **kw)
+        dv["appended"] = len(host.data) - before
+        dv.update(gate=host.data[-1].operation, host=host, static_qubits=listed, idle=idle, opt_obj=o, opt_snap=copy.deepcopy(o),
+                  qarg=qarg, qarg_snap=None if qarg is None or qk == "register" else list(qarg))
+    else:
+        raise ValueError(form)
+    return dv
+
+
+def _pick_alt(c):
+    """brute_force at n = 8: which of the equivalent branches wins the best-leaf selection depends on rounding, so the pre-screen
+    with the real search (0.9 s each) is done here, in the worker, on up to three candidate states (deterministic: same
+    candidates, same order, on every run and in a replay)"""
+    from qclib.state_preparation.util import baa
+    out = dict(c)
+    alts = out.pop("alts")
+    for pairs in alts:
+        out["vec"] = pairs
+        nd = baa.adaptive_approximation([complex(a, b) for a, b in pairs], out["l"], out["s"], out["c"], out["u"])
+        lr = [j for j, p in enumerate(nd.partitions) if p is not None]
+        if lr and lr[0] < len(nd.qubits) - 1:
+            break
+    return out
+
+
+def _dv_plan_counts(c, node):
+    out = [f"diversity:plan:factors={min(len(node.qubits), 3)}(3=more)",
+           f"diversity:plan:largest-factor-qubits={min(max(len(q) for q in node.qubits), 4)}(4=more)"]
+    out += [f"diversity:plan:factor-rank={int(r)}" for r in sorted(set(node.ranks))]
+    lr = [j for j, p in enumerate(node.partitions) if p is not None]
+    if lr and lr[0] < len(node.qubits) - 1:
+        out.append(f"diversity:plan:lowrank-leaf-followed-by-factor:{c['s']}:{c.get('form') or c.get('entry')}")
+    return out
+
+
+def _dv_post(c, dv, gate, defn, sv, v, tol):
+    """Form-specific verdicts (name, ok, detail).  `sv` is the simulated definition of the evaluated gate."""
+    from qiskit import QuantumCircuit
+    from qiskit.quantum_info import Statevector
+    out = []
+    form = c["form"]
+    n = c["n"]
+    # the gate works with the options it was given / the documented defaults
+    op = gate.opt_params
+    l_exp = c["l"] if 0 <= c["l"] <= 1 else 0.0
+    got = (float(op.max_fidelity_loss), op.strategy, int(op.max_combination_size), bool(op.use_low_rank), op.isometry_scheme,
+           op.unitary_scheme)
+    want = (float(l_exp), c["s"], int(c["c"]), bool(c["u"]), dv["iso"], dv["uni"])
+    out.append(("options-effective", got == want, f"gate.opt_params = {got}, passed / documented default = {want}"))
+    # the caller's objects are not written to
+    out.append(("input-untouched", _same_params(dv["P"], dv["P_snap"]), f"the state object handed in was modified: {dv['P']!r}"))
+    if dv.get("opt_obj") is not None:
+        out.append(("opt-dict-untouched", dv["opt_obj"] == dv["opt_snap"] and list(dv["opt_obj"]) == list(dv["opt_snap"]),
+                    f"opt_params after the call {dv['opt_obj']!r}, before {dv['opt_snap']!r}"))
+    if form == "dv-copy":
+        e = float(np.abs(dv["other_sv"] - sv).max())
+        out.append(("copy-agrees", e <= tol, f"gate and gate.copy() (taken before .definition was read) prepare states {e:.3e} apart"))
+    if form == "dv-reuse":
+        e_plan, o_loss, o_l, o_s, got_s, got_l = dv["other_detail"]
+        out.append(("reuse-other", e_plan <= tol and o_loss <= o_l + 1e-12 and got_s == o_s and got_l == o_l,
+                    f"the other construction (strategy {o_s}, budget {o_l}): circuit vs its plan {e_plan:.3e}, plan loss {o_loss!r}, "
+                    f"effective strategy {got_s}, budget {got_l}"))
+        if dv["shared_dict"] is not None:
+            out.append(("shared-dict-untouched", dv["shared_dict"] == dv["shared_expect"],
+                        f"shared opt_params dict {dv['shared_dict']!r}, caller wrote {dv['shared_expect']!r}"))
+    if form == "dv-inverse":
+        gi = gate.inverse()
+        qc = QuantumCircuit(n)
+        qc.append(gate, list(range(n)))
+        qc.append(gi, list(range(n)))
+        back = np.asarray(Statevector(qc).data)
+        e0 = float(abs(back[0] - 1.0))
+        again = float(np.abs(np.asarray(Statevector(gate.definition).data) - sv).max())
+        out.append(("inverse", e0 <= tol and again <= tol, f"gate then gate.inverse() leaves |<0|psi> - 1| = {e0:.3e}; the gate's own "
+                    f"definition afterwards differs by {again:.3e}"))
+    if form == "dv-togate":
+        hn = n + 2
+        perm = list(c["place"][0])
+        for kind, conv in (("to_gate", defn.to_gate), ("to_instruction", defn.to_instruction)):
+            host = QuantumCircuit(hn)
+            idle = {}
+            for q in range(hn):
+                if q not in perm:
+                    th, amp = _idle_amp(q)
+                    host.ry(th, q)
+                    idle[q] = amp
+            host.append(conv(), perm)
+            e = float(np.abs(np.asarray(Statevector(host).data) - _embed(hn, [(sv, perm)], idle)).max())
+            out.append(("definition-" + kind, e <= TOL, f"definition.{kind}() on qubits {perm} of {hn}: host state error {e:.3e}"))
+    if dv.get("host") is not None:
+        host = dv["host"]
+        listed = dv["static_qubits"]
+        hv = np.asarray(Statevector(host).data)
+        if form == "dv-twice":
+            l1, l2 = c["place"]
+            wires = [[host.find_bit(q).index for q in inst.qubits] for inst in host.data[-2:]]
+            want = _embed(host.num_qubits, [(sv, list(l1)), (sv, list(l2))], dv["idle"])
+            okw = wires == [list(l1), list(l2)]
+        else:
+            wires = [host.find_bit(q).index for q in host.data[-1].qubits]
+            want = _embed(host.num_qubits, [(sv, listed)], dv["idle"])
+            okw = wires == listed and dv["appended"] == 1
+            if dv.get("qarg_snap") is not None:
+                okw = okw and list(dv["qarg"]) == dv["qarg_snap"]
+        e = float(np.abs(hv - want).max())
+        out.append(("host-placement", okw and e <= TOL, f"appended on wires {wires}, asked {listed if form != 'dv-twice' else c['place']}; "
+                    f"host state (listed order, idle qubits untouched) error {e:.3e}"))
+    return out
+
+
+def _dv_classify_a2(c, gate, v, tol, l_eff, res, rep):
+    """Failure path of the light-tail cases: rebuild the same gate's circuit with qclib.unitary._apply_a2 (qiskit's A.2 pass)
+    replaced by the identity.  When the amplitudes are then right, the deviation is the precision limit of that pass inside the
+    exact low-rank preparation of a factor (K-C07-1 / K-C01-1 / K-C06-1), reported under its own key."""
+    bad = [k for k in res["checks"] if not k[1] and k[0].split(":")[1] in ("plan", "exact0", "exact-separable", "trueloss-eq")]
+    if not bad or len(bad) != len([k for k in res["checks"] if not k[1]]):
+        return
+    from unittest import mock
+    from qiskit.quantum_info import Statevector
+    import qclib.unitary as qu
+    try:
+        with mock.patch.object(qu, "_apply_a2", lambda circuit: circuit):
+            circ = gate._define_initialize()
+            sv2 = np.asarray(Statevector(circ).data)
+        node = gate.node
+        e_plan = float(np.abs(sv2 - plan_tensor(c["n"], node.vectors, node.qubits)).max())
+        e_in = float(np.abs(sv2 - v).max()) if l_eff == 0.0 else 0.0
+    except Exception:
+        return
+    if e_plan <= tol and e_in <= tol:
+        res["checks"] = [k for k in res["checks"] if k[1]]
+        res["counts"].append("a2-precision:exact low-rank preparation of a factor with a light tail")
+        msg = ("; ".join(k[2] for k in bad[:2]) + f" -- with qclib.unitary._apply_a2 bypassed the errors are {e_plan:.3e} (plan) / "
+               f"{e_in:.3e} (input): precision limit of qiskit's A.2 pass inside LowRankInitialize")
+        if DV_KNOWN_ROOT_CAUSE_AS_FAILURE:
+            res["checks"].append((case_key("dense-a2-precision", c), False, msg, True, rep))
+        else:
+            res["anomalies"].append("known root cause (K-C07-1 / K-C01-1), not counted as a C08 failure: " + case_key("dense-a2-precision", c)
+                                    + ": " + msg)
+
+
+def _plan_checks(c, node, v, R, rep, tol, reduced, pre):
+    """The property read off the returned plan alone (no circuit, no synthesis): cover, budget, loss accounting,
+    node.state_vector(), plan = input at zero loss, true loss = accounted loss <= budget for n <= 3."""
+    n = c["n"]
+    out = []
+    l_eff = float(c["l"]) if 0 <= c["l"] <= 1 else 0.0
+    plan = plan_tensor(n, node.vectors, node.qubits)
+    d = f"qubits={node.qubits} ranks={node.ranks} partitions={node.partitions} loss={node.total_fidelity_loss!r}"
+    cover = sorted(q for qs in node.qubits for q in qs)
+    out.append((case_key(pre + "cover", c), cover == list(range(n)) and all(list(q) == sorted(q) for q in node.qubits)
+                and len(node.vectors) == len(node.qubits) == len(node.ranks) == len(node.partitions)
+                and all(len(np.asarray(x).reshape(-1)) == 2 ** len(q) for x, q in zip(node.vectors, node.qubits)), d, True, rep))
+    tl = float(node.total_fidelity_loss)
+    out.append((case_key(pre + "budget", c), tl <= l_eff + (1e-7 if reduced else 1e-15), f"plan loss {tl!r} > allowed {l_eff!r}; " + d, True, rep))
+    prod = 1.0
+    for x in _losses_on_path(R, node):
+        prod *= (1.0 - x)
+    out.append((case_key(pre + "loss-accounting", c), abs((1.0 - prod) - tl) <= (1e-6 if reduced else 1e-12),
+                f"total loss {tl!r} vs 1-prod(1-l_i) {1.0 - prod!r}", True, rep))
+    nrm = float(np.linalg.norm(plan))
+    out.append((case_key(pre + "plan-normalised", c), abs(nrm - 1.0) <= max(tol, 1e-6 if reduced else 0.0), f"|plan tensor| = {nrm!r}; " + d, True, rep))
+    try:
+        nsv = np.asarray(node.state_vector(), dtype=complex).reshape(-1)
+        err_nsv = float(np.abs(nsv - plan).max()) if nsv.shape == plan.shape else float("inf")
+        out.append((case_key(pre + "node-state-vector", c), err_nsv <= tol and node.num_qubits() == n,
+                    f"max|node.state_vector() - plan tensor| = {err_nsv:.3e}; " + d, True, rep))
+    except Exception as e:
+        if len(node.vectors) == 1 and not isinstance(node.vectors[0], np.ndarray):
+            # unsplit root whose vector is still the caller's list / tuple: tensorly's kronecker wants ndarrays (reporting helper
+            # only, the initializer never calls it)
+            out.append(("count", "out-of-scope:Node.state_vector-raises-on-unsplit-list-root"))
+        else:
+            out.append((case_key(pre + "node-state-vector", c), False, f"node.state_vector() raised {type(e).__name__}: {e}", True, rep))
+    if l_eff == 0.0:
+        err0 = float(np.abs(plan - v).max())
+        out.append((case_key(pre + "exact0", c), err0 <= tol, f"max|plan tensor - input| = {err0:.3e} at zero loss; " + d, True, rep))
+    true_loss = 1.0 - abs(np.vdot(v, plan)) ** 2
+    if n <= 3:
+        slack = 1e-5 if reduced else 1e-12
+        out.append((case_key(pre + "trueloss", c), true_loss <= l_eff + slack, f"true loss of the plan {true_loss!r} > allowed {l_eff!r}; " + d, True, rep))
+        out.append((case_key(pre + "trueloss-eq", c), abs(true_loss - tl) <= slack, f"true loss {true_loss!r} vs accounted {tl!r}", True, rep))
+    return out
+
+
+def run_aa_case(c):
+    """Entry point AA: util.baa.adaptive_approximation called directly, in the requested element type / argument form.  The
+    oracle reads the returned plan only (no circuit, no synthesis): cover, budget, loss accounting, node.state_vector(), plan =
+    input at zero loss, true loss = accounted loss <= budget for n <= 3, caller's array untouched."""
+    from qclib.state_preparation.util import baa
+    n = c["n"]
+    v = np.array([complex(a, b) for a, b in c["vec"]])
+    res = {"checks": [], "counts": [], "anomalies": [], "op": None, "impl": None}
+    P = _mk_params(c["vec"], c.get("etype"))
+    snap = _snap_params(P)
+    L = _typed(c["l"], c.get("ltype"))
+    C = _typed(c["c"], c.get("ctype"))
+    U = _typed(c["u"], c.get("utype"))
+    af = c.get("aaform", "pos")
+    rep = {"call": f"adaptive_approximation(<{c.get('etype') or 'list-complex'}>, ...) [{af}]", "case": c, "kind": c["kind"], "n": n,
+           "tag": c["tag"], "vector": c["vec"]}
+    tol = float(c.get("tol", TOL))
+    reduced = c.get("etype") in ("float32", "complex64", "list-npfloat32")
+    if reduced:
+        nv = np.linalg.norm(v)
+        if abs(nv - 1.0) > 1e-12:
+            v = v / nv
+            tol = max(tol, 1e-5)
+    try:
+        with Recorder() as R:
+            if af == "pos":
+                node = baa.adaptive_approximation(P, L, c["s"], C, U)
+            elif af == "kw":
+                node = baa.adaptive_approximation(state_vector=P, max_fidelity_loss=L, strategy=c["s"], max_combination_size=C,
+                                                  use_low_rank=U)
+            elif af == "kw-shuffled":
+                node = baa.adaptive_approximation(use_low_rank=U, max_combination_size=C, strategy=c["s"], max_fidelity_loss=L,
+                                                  state_vector=P)
+            elif af == "mixed":
+                node = baa.adaptive_approximation(P, L, use_low_rank=U, strategy=c["s"], max_combination_size=C)
+            elif af == "defaults":     # strategy / max_combination_size / use_low_rank left at their documented defaults
+                node = baa.adaptive_approximation(P, L)
+            elif af == "defaults-kw":
+                node = baa.adaptive_approximation(P, max_fidelity_loss=L, strategy=c["s"])
+            else:
+                raise ValueError(af)
+    except Exception as e:
+        res["checks"].append((case_key("aa:raises", c), False, f"{type(e).__name__}: {e}", True, rep))
+        return res
+    res["anomalies"] = R.anomalies
+    res["counts"].append("diversity:aa-call-form:" + af)
+    res["counts"] += _dv_plan_counts(c, node)
+    early = c["s"] != "canonical" and len(R.roots) == 1
+    if not reduced and n >= 2:
+        impl = []
+        if c["s"] != "canonical":
+            impl += tree_lines("pre:", R.roots[0])
+        impl.append(f"early {int(early)}")
+        if not early:
+            impl += tree_lines("", R.roots[-1])
+        impl += node_lines("", "ret", node, R.rec_of(node))
+        res["impl"] = impl
+        res["op"] = {"op": "baa", "n": n, "root": R.vid(P), "strategy": c["s"], "maxK": int(c["c"]), "ulr": bool(c["u"]),
+                     "maxLoss": enc_loss(c["l"]), "schmidt": list(R.table.values()),
+                     "cnots": [{"v": k[0], "p": None if k[1] is None else list(k[1]), "lr": k[2], "c": cc}
+                               for k, cc in R.cn.items()],
+                     "nowires": True, "label": case_key("aa:tie", c)}
+    res["counts"].append("early" if early else "search")
+    res["counts"] += sorted(R.bcounts)
+    for k in _plan_checks(c, node, v, R, rep, tol, reduced, "aa:"):
+        (res["counts"].append(k[1]) if k[0] == "count" else res["checks"].append(k))
+    res["checks"].append((case_key("aa:input-untouched", c), _same_params(P, snap), f"the caller's state object was modified: {P!r}", True, rep))
+    return res
+
+
+# ---- generators -----------------------------------------------------------------------------------------------------------
+
+def _f32(v):
+    """the vector rounded to float32 / complex64 components, as exact doubles"""
+    return np.asarray(v, dtype=np.complex64).astype(complex)
+
+
+def _headtail(r, m, t, pos=None):
+    """one amplitude of modulus ~1 (random phase), all others of modulus ~t (random phases)"""
+    v = t * np.exp(2j * np.pi * r.random(2 ** m)) * (0.5 + r.random(2 ** m))
+    v[int(r.integers(0, 2 ** m)) if pos is None else pos] = np.exp(2j * np.pi * r.random())
+    return v / np.linalg.norm(v)
+
+
+def _dv_host(pr, n, qkind, extra=None):
+    """a host wider than needed built from two or three registers in a random creation order, and a permuted, non-ascending,
+    non-contiguous selection of n of its qubits"""
+    extra = pr.choice([1, 2]) if extra is None else extra
+    total = n + extra
+    if qkind in ("omitted", "none"):
+        k = pr.randint(0, n)
+        regs = [["a", k], ["b", n - k]] if 0 < k < n else [["a", n]]
+        pr.shuffle(regs)
+        return {"regs": regs, "qkind": qkind}
+    if qkind == "register":
+        regs = [["a", pr.randint(1, 2)], ["b", n], ["c", 1]]
+        pr.shuffle(regs)
+        return {"regs": regs, "qkind": qkind, "reg": "b"}
+    k = pr.randint(1, total - 1)
+    regs = [["a", k], ["b", total - k]]
+    pr.shuffle(regs)
+    for _ in range(50):
+        sel = pr.sample(range(total), n)
+        if n == 1 or (sel != sorted(sel) and (n < 3 or sorted(sel) != list(range(min(sel), min(sel) + n)) or extra == 0)):
+            break
+    h = {"regs": regs, "qkind": qkind, "sel": sel}
+    if qkind == "slices":
+        # the selection written as register slices (forward and backward runs), concatenated
+        off, names = {}, {}
+        pos = 0
+        for a, kk in regs:
+            for i in range(kk):
+                names[pos + i] = (a, i)
+            pos += kk
+        sl = []
+        for g in sel:
+            a, i = names[g]
+            if sl and sl[-1][0] == a and sl[-1][3] in (None, 1) and sl[-1][2] == i and sl[-1][3] != -1:
+                sl[-1] = [a, sl[-1][1], i + 1, 1]
+            else:
+                sl.append([a, i, i + 1, None])
+        h["slices"] = [[a, s0, s1, 1 if st is None else st] for a, s0, s1, st in sl]
+    return h
+
+
+class _DvGen:
+    def __init__(self, ctx):
+        self.pr = ctx.rng
+        self.r = ctx.nprng()
+        self.cases = []
+        self.k = 0
+
+    def strat(self):
+        self.k += 1
+        return STRATS[self.k % 4]
+
+    def add(self, entry, n, kind, vec, l, s, u, cc, tag, fam, **extra):
+        """entry: 'class' | 'static' | 'aa' | an explicit dv form"""
+        c = {"n": n, "kind": kind, "vec": _pairs(vec), "l": float(l), "s": s, "u": bool(u), "c": int(cc), "do_cx": False,
+             "bcount": ["diversity:" + fam], "dv": True}
+        if entry == "aa":
+            c["entry"] = "aa"
+            c.setdefault("aaform", "pos")
+        elif entry == "static":
+            c["form"] = "dv-static"
+            if "host" not in extra:
+                c["host"] = _dv_host(self.pr, n, self.pr.choice(["int", "qubit", "slices", "tuple", "mixed"]))
+        elif entry == "class":
+            c["form"] = "dv-class"
+        else:
+            c["form"] = entry
+        fixed = extra.pop("fixed_tag", None)
+        if entry != "aa":
+            # a deviation that vanishes with qiskit's A.2 pass bypassed is reported under baa:dense-a2-precision (it also strikes
+            # generic states now and then: one 8-qubit haar state in some hundred is off by ~7e-6)
+            c["a2class"] = True
+        c.update(extra)
+        c["tag"] = f"{tag}:{entry}" + (":" + c["etype"] if c.get("etype") else "") + f"#{len(self.cases)}"
+        if fixed is not None:          # seed-independent key
+            c["tag"] = fixed
+        self.cases.append(c)
+        return c
+
+    def all_entries(self, n, kind, vec, l, tag, fam, entries=("class", "static", "aa"), li=0, **extra):
+        """one case per entry point; the static helper only for the first budget of a state (li == 0), and without a tie op there
+        (same gate class as 'class', whose run is tied; the static call forms proper are tied in _dv_call_forms / _dv_sizes)"""
+        for e in entries:
+            if e == "static" and li > 0 and len(entries) > 1:
+                continue
+            s = self.strat()
+            u = self.pr.random() < 0.4
+            cc = self.pr.choice([0, 0, 1]) if n >= 2 else 0
+            ex = dict(extra)
+            if e == "static":
+                ex.setdefault("notie", True)
+            if e == "aa":
+                ex.setdefault("aaform", self.pr.choice(["pos", "kw", "mixed", "kw-shuffled"]))
+                ex.pop("a2class", None)
+                ex.pop("lighttail", None)
+            self.add(e, n, kind, vec, l, s, u, cc, tag, fam, **ex)
+
+
+def _signed_basis(pr, n):
+    v = np.zeros(2 ** n, dtype=complex)
+    v[pr.randrange(2 ** n)] = pr.choice([1, -1])
+    return v
+
+
+def _half_entries(pr, n, cplx):
+    """unit vector whose components are exactly representable in float32: 4 entries of modulus 1/2 (n <= 3) or 16 of modulus 1/4"""
+    m = 2 ** n
+    v = np.zeros(m, dtype=complex)
+    if n == 1:
+        v[pr.randrange(2)] = pr.choice([1, -1, 1j, -1j] if cplx else [1, -1])
+        return v
+    if n == 4 and pr.random() < 0.5:
+        pos, a = range(m), 0.25
+    else:
+        pos, a = pr.sample(range(m), 4), 0.5
+    for p in pos:
+        v[p] = a * pr.choice([1, -1, 1j, -1j] if cplx else [1, -1])
+    return v
+
+
+def _dv_elem_types(g):
+    pr, r = g.pr, g.r
+    fam = "element-type"
+    for n in (2, 3):
+        real = make_vector("real", n, pr, r)
+        real[0] = -abs(real[0])
+        gen = make_vector(pr.choice(["haar", "nearprod"]), n, pr, r)
+        sparse = np.zeros(2 ** n, dtype=complex)
+        for p in pr.sample(range(2 ** n), 2 if n == 2 else 3):
+            sparse[p] = complex(r.normal(), pr.choice([0.0, r.normal()]))
+        sparse[np.flatnonzero(sparse)[0]] = -abs(sparse[np.flatnonzero(sparse)[0]].real) - 0.3     # a real negative entry
+        sparse = sparse / np.linalg.norm(sparse)
+        table = [("list-int", _signed_basis(pr, n)), ("int64", _signed_basis(pr, n)), ("list-float", real), ("tuple-float", real),
+                 ("float64", real), ("list-npfloat", real), ("complex128", real), ("tuple", gen), ("list-npscalars", gen),
+                 ("complex128", gen), ("list-mixed", sparse), ("negzero", sparse), ("negzero-float", np.where(sparse.imag == 0, sparse, 0).real
+                                                                                    / np.linalg.norm(np.where(sparse.imag == 0, sparse, 0)))]
+        for et, vec in table:
+            for li, l in enumerate((0.0, pr.choice([0.05, 0.15, 0.4]))):
+                g.all_entries(n, "etype", vec, l, "et", f"{fam}:{et}", li=li, etype=et)
+        # reduced precision: exactly representable (same oracle, 1e-7) and generic (documented rejection, or right to 1e-5)
+        for et, cplx in (("float32", False), ("complex64", True), ("list-npfloat32", False)):
+            vec = _half_entries(pr, n, cplx)
+            for li, l in enumerate((0.0, 0.15)):
+                g.all_entries(n, "etype-exact32", vec, l, "et", f"{fam}:{et}:exactly-representable", li=li, etype=et)
+        for et, vec in (("float32", _f32(real)), ("complex64", _f32(gen))):
+            for l in (0.0, 0.15):
+                g.all_entries(n, "etype-generic32", vec, l, "et", f"{fam}:{et}:generic", entries=("class", "static"), etype=et,
+                              expect="reject-or-close")
+                g.all_entries(n, "etype-generic32", vec, l, "et", f"{fam}:{et}:generic", entries=("aa",), etype=et)
+    vec = _half_entries(pr, 4, True)
+    g.all_entries(4, "etype-exact32", vec, 0.0, "et", f"{fam}:complex64:exactly-representable", etype="complex64")
+    g.all_entries(4, "etype", _signed_basis(pr, 4), 0.0, "et", f"{fam}:list-int", etype="list-int")
+
+
+def _dv_option_types(g):
+    pr, r = g.pr, g.r
+    fam = "option-type"
+    for n in (2, 3, 4):
+        vec = make_vector(pr.choice(["nearprod", "haar", "groups"]), n, pr, r)
+        forms = [("l=int0", dict(l=0, ltype="int")), ("l=int1", dict(l=1, ltype="int")), ("l=float0", dict(l=0.0, ltype="float")),
+                 ("l=float1", dict(l=1.0, ltype="float")), ("l=np.float32", dict(l=float(np.float32(pr.choice([0.1, 0.3]))), ltype="float32")),
+                 ("l=np.float64", dict(l=pr.choice([0.05, 0.3]), ltype="float64")), ("l=np.float64(0)", dict(l=0.0, ltype="float64")),
+                 ("c=np.int64", dict(l=0.3, c=1, ctype="int64")), ("c=np.int64(0)", dict(l=0.3, c=0, ctype="int64")),
+                 ("u=int1", dict(l=0.1, u=True, utype="int")), ("u=int0", dict(l=0.1, u=False, utype="int")),
+                 ("u=np.bool_", dict(l=0.1, u=True, utype="bool_"))]
+        for name, f in forms:
+            for e in (("class", "static", "aa") if n <= 3 else ("class", "aa")):
+                kw = {k: f[k] for k in ("ltype", "ctype", "utype") if k in f}
+                if e == "static":
+                    kw["notie"] = True
+                g.add(e, n, "opttype", vec, f["l"], g.strat(), f.get("u", pr.random() < 0.4), f.get("c", 0), "ot-" + name, f"{fam}:{name}", **kw)
+    # outside [0, 1]: documented as ignored (budget 0) by the initializer; adaptive_approximation itself documents no range
+    for n in (2, 3):
+        vec = make_vector("haar", n, pr, r)
+        for l in (-1, 2, -0.5, 1.5):
+            for e in ("class", "static"):
+                g.add(e, n, "opttype", vec, l, g.strat(), False, 0, f"ot-l={l}", f"{fam}:max_fidelity_loss-out-of-range-ignored",
+                      ltype="int" if isinstance(l, int) else "float")
+
+
+def _dv_scale(g):
+    pr, r = g.pr, g.r
+    # (a) exactly separable over interleaved groups, every factor heavy head + light tail.  Factors of <= 2 qubits through the
+    #     circuit (tails 1e-3 .. 1e-6); the plan-level entry also gets 3-qubit factors.  Budgets 0 and 1e-13 (a factor 10 below the
+    #     smallest internal cut loss 1e-12, far above the +-4e-16 rounding of an exact cut)
+    for n in (3, 4, 5):
+        for rep_i in range(2):
+            for entries, maxf in ((("class", "static"), 2), (("aa",), 3)):
+                qs = list(range(n))
+                pr.shuffle(qs)
+                groups, i = [], 0
+                while i < n:
+                    k = pr.randint(1, maxf)
+                    groups.append(sorted(qs[i:i + k]))
+                    i += k
+                if len(groups) == 1:
+                    groups = [groups[0][:1], groups[0][1:]]
+                t = pr.choice([1e-3, 1e-4, 1e-5, 1e-6])
+                vec = _interleave(n, groups, [_headtail(r, len(gr), t) for gr in groups])
+                for li, l in enumerate((0.0, 1e-13)):
+                    g.all_entries(n, "sep-headtail", vec, l, f"sht{t:g}", f"scale:separable-interleaved-headtail-factors:tail={t:g}",
+                                  entries=entries, li=li, lighttail=True)
+    # (b) one heavy qubit (x) light-tail qubits: amplitudes t^k
+    for n in (2, 3, 4):
+        t = pr.choice([1e-3, 1e-4, 1e-5])
+        qs = [np.array([1.0, 0.0]) * np.exp(1j * r.random()) + np.array([0.0, 1.0]) * r.random() * 0.8]
+        qs += [_headtail(r, 1, t) for _ in range(n - 1)]
+        order = list(range(n))
+        pr.shuffle(order)
+        vec = _interleave(n, [[q] for q in order], [x / np.linalg.norm(x) for x in qs])
+        for li, l in enumerate((0.0, 1e-13, 0.1)):
+            g.all_entries(n, "heavy-x-light", vec, l, f"hxl{t:g}", f"scale:heavy-qubit-x-light-tail-qubits:tail={t:g}", li=li, lighttail=True)
+    # (c) tiny entanglement across one cut: Schmidt coefficients (1, s), s = 1e-3 .. 1e-6 (rank cut 1e-7: factor >= 10), cutting
+    #     loses s^2 = 1e-6 .. 1e-12; budgets 0, s^2/3, 3 s^2, 0.1.  Circuit at n = 2 (one CNOT, no two-qubit synthesis), plan for n <= 4
+    for s_ in (1e-3, 1e-4, 1e-5, 1e-6):
+        for n, cut in [(2, [pr.randrange(2)]), (3, [pr.randrange(3)]), (4, sorted(pr.sample(range(4), pr.choice([1, 2]))))]:
+            vec = _almost_separable(n, cut, s_ * s_, r)
+            for name, l in (("0", 0.0), ("third", s_ * s_ / 3), ("triple", 3 * s_ * s_), ("far-above", 0.1)):
+                ents = ("class", "aa") if n == 2 else ("aa",)
+                g.all_entries(n, "tinycut", vec, l, f"tc{s_:g}-{name}", f"scale:schmidt-coefficient={s_:g}:budget-{name}", entries=ents)
+    # (d) uniform, GHZ, sparse, single amplitude, norm carried by one sub-tree
+    for n in (2, 3, 4):
+        ghz = np.zeros(2 ** n, dtype=complex)
+        ghz[0], ghz[-1] = 1 / math.sqrt(2), pr.choice([1, -1, 1j]) / math.sqrt(2)
+        sparse = np.zeros(2 ** n, dtype=complex)
+        for p in pr.sample(range(2 ** n), 2):
+            sparse[p] = r.normal() + 1j * r.normal()
+        sparse = sparse / np.linalg.norm(sparse)
+        single = np.zeros(2 ** n, dtype=complex)
+        single[pr.randrange(2 ** n)] = 1.0
+        sub = np.zeros(2 ** n, dtype=complex)
+        half = 2 ** (n - 1)
+        lo = pr.random() < 0.5
+        sub[(0 if lo else half):(half if lo else 2 * half)] = _haar(r, n - 1)
+        quarter = np.zeros(2 ** n, dtype=complex)
+        if n >= 3:
+            st = pr.randrange(4) * 2 ** (n - 2)
+            quarter[st:st + 2 ** (n - 2)] = _haar(r, n - 2)
+        uni = np.ones(2 ** n, dtype=complex) / math.sqrt(2 ** n)
+        for name, vec in (("uniform", uni), ("ghz", ghz), ("sparse-2-nonzero", sparse), ("single-amplitude-1", single),
+                          ("norm-in-one-half", sub), ("norm-in-one-quarter", quarter)):
+            if not np.any(vec):
+                continue
+            for li, l in enumerate((0.0, pr.choice([0.1, 0.3, 0.6]))):
+                g.all_entries(n, "scale-" + name, vec, l, "sc", f"scale:{name}", li=li)
+
+
+def _dv_phases(g):
+    pr, r = g.pr, g.r
+    plus = [np.array([1, 1]) / math.sqrt(2), np.array([1, -1]) / math.sqrt(2), np.array([1, 1j]) / math.sqrt(2),
+            np.array([1, -1j]) / math.sqrt(2)]
+    for n in (2, 3, 4):
+        real = np.abs(make_vector("real", n, pr, r)) + 0.02
+        real = real / np.linalg.norm(real)
+        groups = _random_groups(pr, n)
+        sep = _interleave(n, groups, [_haar(r, len(gr)) for gr in groups])
+        order = list(range(n))
+        pr.shuffle(order)
+        pm = _interleave(n, [[q] for q in order], [plus[(i + pr.randrange(4)) % 4] for i in range(n)])
+        ent = np.array([pr.choice([1, -1, 1j, -1j]) for _ in range(2 ** n)], dtype=complex) / math.sqrt(2 ** n)
+        hr = _haar(r, n)
+        table = [("all-negative-reals", -real, "float64"), ("all-negative-reals", -real, None), ("purely-imaginary", 1j * real, None),
+                 ("purely-imaginary-negative", -1j * real, "complex128"), ("global-phase--1:separable", -sep, None),
+                 ("global-phase-i:separable", 1j * sep, None), ("global-phase--1:generic", -hr, None), ("global-phase-i:generic", 1j * hr, None),
+                 ("product-of-plus-minus-iplus-iminus", pm, None), ("product-of-plus-minus:phase-i", 1j * pm, None),
+                 ("entries-pm1-pmi", ent, None)]
+        for name, vec, et in table:
+            for li, l in enumerate((0.0, 1e-13 if "separable" in name or "product" in name else pr.choice([0.1, 0.3]))):
+                kw = {"etype": et} if et else {}
+                g.all_entries(n, "phase", vec, l, "ph", f"phase:{name}", li=li, **kw)
+
+
+def _dv_call_forms(g):
+    pr, r = g.pr, g.r
+    fam = "call-form"
+    D = DV_DEFAULTS
+
+    def approximable(n):
+        """a state on which the options change the plan: budget, strategy, max_combination_size and use_low_rank all matter"""
+        return make_vector(pr.choice(["nearprod", "lowrank", "haar"]) if n >= 4 else pr.choice(["nearprod", "haar"]), n, pr, r)
+
+    for n in (2, 3, 4):
+        vec = approximable(n)
+        nd = {"l": pr.choice([0.1, 0.3]), "s": pr.choice(["brute_force", "split", "canonical"]), "c": 1, "u": True}   # all non-default
+        for e in ("class", "static"):
+            # opt_params omitted / None / {}: every documented default
+            for ok in ("omitted", "none", []):
+                g.add(e, n, "callform", vec, D["l"], D["s"], D["u"], D["c"], f"cf-opt-{ok if ok else 'empty'}",
+                      f"{fam}:opt_params-{ok if ok != [] else 'empty-dict'}", okeys=ok)
+            # each key alone, non-default; the others at their documented default
+            for key, eff in (("max_fidelity_loss", dict(l=nd["l"])), ("strategy", dict(s=nd["s"])), ("max_combination_size", dict(c=1)),
+                             ("use_low_rank", dict(u=True)), ("iso_scheme", dict(iso="knill")), ("unitary_scheme", dict(uni="csd"))):
+                ef = dict(D, **eff)
+                g.add(e, n, "callform", vec, ef["l"], ef["s"], ef["u"], ef["c"], "cf-only-" + key, f"{fam}:only-{key}", okeys=[key],
+                      iso=ef["iso"], uni=ef["uni"])
+            # the four search keys (no schemes), and EVERY key non-default at once
+            g.add(e, n, "callform", vec, nd["l"], nd["s"], nd["u"], nd["c"], "cf-search-keys", f"{fam}:search-keys-nondefault")
+            g.add(e, n, "callform", vec, nd["l"], nd["s"], nd["u"], nd["c"], "cf-all-nondefault", f"{fam}:every-key-nondefault",
+                  okeys=DV_OPT_KEYS + ["iso_scheme", "unitary_scheme"], iso="knill", uni="csd")
+            g.add(e, n, "callform", vec, 0.0, "greedy", False, 0, "cf-all-default-values", f"{fam}:every-key-at-default-value",
+                  okeys=DV_OPT_KEYS + ["iso_scheme", "unitary_scheme"], iso="ccd", uni="qsd")
+        # static helper: every qubit-argument form, host wider than needed, registers in random order, plan-changing options
+        for qk in ("int", "tuple", "qubit", "slices", "mixed", "register", "omitted", "none"):
+            s = pr.choice(["brute_force", "split", "greedy", "canonical"])
+            g.add("static", n, "callform", vec, nd["l"], s, True, pr.choice([0, 1]), "cf-q-" + qk, f"{fam}:static-qubits-{qk}",
+                  host=_dv_host(pr, n, qk))
+            g.add("static", n, "callform", vec, 0.0, "greedy", False, 0, "cf-q-" + qk + "-noopt", f"{fam}:static-qubits-{qk}:opt_params-omitted",
+                  host=_dv_host(pr, n, qk), okeys="omitted")
+        g.add("static", n, "callform", vec, nd["l"], "brute_force", True, 0, "cf-q-bf", f"{fam}:static-brute_force-low_rank-lossy",
+              host=_dv_host(pr, n, "int", extra=2))
+        # label, copy before the definition exists (both orders), inverse, appended twice, to_gate / to_instruction of the definition
+        g.add("class", n, "callform", vec, nd["l"], nd["s"], nd["u"], nd["c"], "cf-label", f"{fam}:label", label=True)
+        g.add("class", n, "callform", vec, 0.0, "greedy", False, 0, "cf-label-noopt", f"{fam}:label:opt_params-omitted", label=True, okeys="omitted")
+        for which in (0, 1):
+            g.add("dv-copy", n, "callform", vec, nd["l"], g.strat(), pr.random() < 0.5, 0, f"cf-copy{which}", f"{fam}:copy-before-definition",
+                  which=which)
+        g.add("dv-inverse", n, "callform", vec, pr.choice([0.0, nd["l"]]), g.strat(), pr.random() < 0.5, 0, "cf-inverse", f"{fam}:inverse",
+              label=pr.random() < 0.5)
+        hn = 2 * n + 1
+        perm = pr.sample(range(hn), 2 * n)
+        g.add("dv-twice", n, "callform", vec, pr.choice([0.0, nd["l"]]), g.strat(), pr.random() < 0.5, 0, "cf-twice", f"{fam}:gate-appended-twice",
+              host_n=hn, place=[perm[:n], perm[n:]])
+        g.add("dv-togate", n, "callform", vec, pr.choice([0.0, nd["l"]]), g.strat(), pr.random() < 0.5, 0, "cf-togate",
+              f"{fam}:definition.to_gate/to_instruction", place=[pr.sample(range(n + 2), n)])
+        # the SAME dict object for two constructions, contents replaced in between; the SAME state object for two budgets
+        vec2 = approximable(n)
+        oth_opts = [{"max_fidelity_loss": 0.0}, {"max_fidelity_loss": 0.5, "strategy": "canonical"},
+                    {"strategy": "split", "use_low_rank": True, "max_fidelity_loss": 0.2, "max_combination_size": 1}]
+        for which in (0, 1):
+            g.add("dv-reuse", n, "callform", vec, nd["l"], nd["s"], nd["u"], nd["c"], f"cf-reuse-dict{which}", f"{fam}:same-dict-object-reused",
+                  which=which, share_dict=True, other={"vec": _pairs(vec2), "opt": pr.choice(oth_opts)})
+            g.add("dv-reuse", n, "callform", vec, pr.choice([0.0, 0.3]), g.strat(), False, 0, f"cf-reuse-array{which}",
+                  f"{fam}:same-state-object-reused", which=which, share_array=True, etype=pr.choice(["complex128", "list-complex"]), other={"vec": _pairs(vec), "opt": {"max_fidelity_loss": 0.6}})
+        # adaptive_approximation: positional / keyword / mixed / defaults
+        for af in ("pos", "kw", "kw-shuffled", "mixed"):
+            g.add("aa", n, "callform", vec, nd["l"], g.strat(), pr.random() < 0.5, pr.choice([0, 1]), "cf-aa-" + af, f"{fam}:aa-{af}", aaform=af)
+        g.add("aa", n, "callform", vec, nd["l"], "greedy", False, 0, "cf-aa-defaults", f"{fam}:aa-defaults", aaform="defaults")
+        g.add("aa", n, "callform", vec, nd["l"], nd["s"], False, 0, "cf-aa-defaults-kw", f"{fam}:aa-defaults-kw", aaform="defaults-kw")
+
+
+def _lr_block(r, dim, spec):
+    spec = np.asarray(spec, dtype=float)
+    spec = spec / np.linalg.norm(spec)
+    qa, _ = np.linalg.qr(r.normal(size=(dim, dim)) + 1j * r.normal(size=(dim, dim)))
+    qb, _ = np.linalg.qr(r.normal(size=(dim, dim)) + 1j * r.normal(size=(dim, dim)))
+    return ((qa * spec) @ qb).reshape(-1), spec
+
+
+def _dv_sizes(g):
+    pr, r = g.pr, g.r
+    # n = 1: nothing to split; every entry point, option form and strategy
+    for vec, et in ((np.array([0.6, 0.8j]), None), (np.array([0, -1]), "list-int"), (np.array([-0.6, 0.8]), "float64"),
+                    (_haar(r, 1), "tuple")):
+        for l in (0.0, 0.5):
+            kw = {"etype": et} if et else {}
+            g.all_entries(1, "n1", vec, l, "n1", "size:n=1", **kw)
+    g.add("class", 1, "n1", _haar(r, 1), 0.0, "greedy", False, 0, "n1-noopt", "size:n=1", okeys="omitted")
+    g.add("static", 1, "n1", _haar(r, 1), 0.0, "greedy", False, 0, "n1-noopt", "size:n=1", okeys="omitted", host=_dv_host(pr, 1, "omitted"))
+    g.add("dv-inverse", 1, "n1", _haar(r, 1), 0.0, "greedy", False, 0, "n1-inv", "size:n=1")
+    # n = 5: three interleaved groups (1 + 2 + 2 qubits) -> plans with 3+ factors of 1 / 2 qubits, every entry point
+    for _ in range(2):
+        qs = list(range(5))
+        pr.shuffle(qs)
+        groups = [sorted(qs[:1]), sorted(qs[1:3]), sorted(qs[3:])]
+        vec = _interleave(5, groups, [_haar(r, len(gr)) for gr in groups])
+        for li, l in enumerate((0.0, 1e-13, 0.2)):
+            g.all_entries(5, "groups122", vec, l, "g122", "size:n=5:groups-1+2+2", li=li)
+    # a 3-qubit factor next to a 2-qubit factor
+    qs = list(range(5))
+    pr.shuffle(qs)
+    groups = [sorted(qs[:3]), sorted(qs[3:])]
+    vec = _interleave(5, groups, [_haar(r, 3), _haar(r, 2)])
+    g.all_entries(5, "groups32", vec, 1e-13, "g32", "size:n=5:groups-3+2")
+    # rank 4 inside a factor: 6 qubits, Schmidt spectrum 4 heavy + 4 light across 3|3, use_low_rank, budget above the truncation
+    spec = [0.7, 0.5, 0.4, 0.3, 0.05, 0.04, 0.03, 0.02]
+    vec, sp = _lr_block(r, 8, spec)
+    tr = float((sp[4:] ** 2).sum())
+    for e, s in (("class", "split"), ("static", "canonical"), ("aa", "brute_force")):
+        g.add(e, 6, "rank4", vec, 1.3 * tr, s, True, pr.choice([0, 3]), "rank4", "size:rank-4-leaf:n=6")
+    # rank-2 leaf FOLLOWED by further factors (n = 8: A on 4 qubits almost rank 2, two almost-product pairs, 2% noise), every
+    # strategy; for greedy / brute_force the branch that wins depends on the state: pre-screened with the real search
+    from qclib.state_preparation.util import baa
+    spec2 = np.array([0.8, 0.59, 0.08, 0.05])
+    eps = 0.02
+
+    def lrf_state(r=r):
+        a, sp2 = _lr_block(r, 4, spec2)
+        st = [a, _almost_separable(2, [0], 1e-3, r), _almost_separable(2, [0], 1e-3, r)]
+        v8 = _interleave(8, [[0, 1, 2, 3], [4, 5], [6, 7]], st) + eps * _haar(r, 8)
+        return v8 / np.linalg.norm(v8), 1.3 * float((sp2[2:] ** 2).sum()) + 1.5 * eps ** 2 + 2e-3
+
+    def followed(v8, l, s):
+        nd = baa.adaptive_approximation(list(v8), l, s, 0, True)
+        lr = [j for j, p in enumerate(nd.partitions) if p is not None]
+        return bool(lr) and lr[0] < len(nd.qubits) - 1
+
+    picked = {}
+    for s, tries in (("canonical", 1), ("split", 1), ("greedy", 10)):
+        for _ in range(tries):
+            v8, l8 = lrf_state()
+            picked[s] = (v8, l8)
+            if tries == 1 or followed(v8, l8, s):
+                break
+    for s, (v8, l8) in picked.items():
+        g.add("class", 8, "lrfollow", v8, l8, s, True, 0, "lrf", "size:lowrank-leaf-followed:" + s)
+        g.add("aa", 8, "lrfollow", v8, l8, s, True, 0, "lrf", "size:lowrank-leaf-followed:" + s, aaform=pr.choice(["kw", "mixed"]))
+    # brute_force (0.9 s per search; which of its equivalent branches wins depends on rounding, about every second state gives such
+    # a plan): three fixed states found with the real search, re-screened in the worker (see _pick_alt)
+    fixed = [lrf_state(np.random.default_rng(1000 + k)) for k in (0, 2, 4)]
+    g.add("class", 8, "lrfollow", fixed[0][0], fixed[0][1], "brute_force", True, 0, "lrf", "size:lowrank-leaf-followed:brute_force",
+          alts=[_pairs(x[0]) for x in fixed])
+    v8, l8 = picked["split"]
+    g.add("static", 8, "lrfollow", v8, l8, "split", True, 0, "lrf-static", "size:lowrank-leaf-followed:static-host",
+          host=_dv_host(pr, 8, "int", extra=1), okeys=["use_low_rank", "strategy", "max_fidelity_loss"])
+    v8, l8 = picked["canonical"]
+    g.add("static", 8, "lrfollow", v8, l8, "canonical", True, 0, "lrf-static", "size:lowrank-leaf-followed:static-host",
+          host=_dv_host(pr, 8, "qubit", extra=1), okeys=DV_OPT_KEYS + ["iso_scheme", "unitary_scheme"], iso="knill", uni="csd")
+    g.add("dv-copy", 8, "lrfollow", v8, l8, "canonical", True, 0, "lrf-copy", "size:lowrank-leaf-followed:copy", which=1)
+    g.add("dv-reuse", 8, "lrfollow", v8, l8, "canonical", True, 0, "lrf-reuse", "size:lowrank-leaf-followed:same-dict-object-reused", which=1,
+          share_dict=True, other={"vec": _pairs(make_vector("haar", 3, pr, r)), "opt": {"max_fidelity_loss": 0.0}})
+
+
+def _dv_probes(g):
+    """LAST in the case list (so that the first violation reported is never one of these while anything else fails):
+    the excluded band made visible (fixed inputs, independent of the seed; see the header: baa:dense-a2-precision,
+    baa:ucgate-kernel-raises)"""
+    for n, cut, s_, sd in DV_A2_PROBES:
+        vec = _almost_separable(n, cut, s_ * s_, np.random.default_rng(sd))
+        g.add("class", n, "a2probe", vec, 0.0, "greedy", False, 0, f"a2p{s_:g}", f"scale:a2probe:schmidt-coefficient={s_:g}", a2class=True,
+              fixed_tag=f"cut={','.join(map(str, cut))}:s={s_:g}:rng={sd}")
+    hx = [float.fromhex(x) for x in DV_UCG_PROBE.split()]
+    vec = np.array([complex(a, b) for a, b in zip(hx[0::2], hx[1::2])])
+    g.add("class", 5, "ucgprobe", vec, 0.0, "canonical", True, 0, "ucgp", "scale:ucgprobe:tail=1e-4", a2class=True, fixed_tag="literal")
+
+
+def gen_diversity_cases(ctx):
+    g = _DvGen(ctx)
+    _dv_elem_types(g)
+    _dv_option_types(g)
+    _dv_scale(g)
+    _dv_phases(g)
+    _dv_call_forms(g)
+    _dv_sizes(g)
+    _dv_probes(g)
+    return g.cases
+
+
+
+# ---------------------------------------------------------------------------------------------
 # pure helpers of baa.py, tied exhaustively
 # ---------------------------------------------------------------------------------------------
 
@@ -1057,6 +2158,8 @@ def compare(op, impl, model):
     if op.get("op") == "baa":
         ex = [l for l in model if l.startswith("exact ")]
         model = [l for l in model if not l.startswith("exact ")]
+        if op.get("nowires"):      # adaptive_approximation called directly: there is no definition whose wires could be read
+            model = [l for l in model if not l.startswith("wires")]
         if _CTX is not None:
             _CTX.count("tie:exact-arithmetic-same-plan" if ex == ["exact 1"] else "tie:exact-arithmetic-differs(rounding-borderline)")
         d = framework.diff_lines(impl, model, tol=1e-12)
@@ -1075,7 +2178,7 @@ def _execute(ctx, cases, workers=None):
             results = list(ex.map(run_case, cases, chunksize=8))
     for c, res in zip(cases, results):
         for a in res["anomalies"]:
-            ctx.notes.append("harness anomaly: " + a)
+            ctx.notes.append(("" if a.startswith("known root cause") else "harness anomaly: ") + a)
         if res["op"] is not None:
             op = res["op"]
             label = op.pop("label")
@@ -1106,6 +2209,9 @@ def run(ctx):
                      "max_combination_size below/at/above half, max_fidelity_loss at and just outside [0,1], n = 13/14/15 around the "
                      "randomized-SVD switch, and 24 'svcut' cases with one Schmidt coefficient at 3.3e-8 / 3e-7 (amplitudes to 3e-6 there: "
                      "qiskit's two-qubit synthesis rounds blocks within fidelity 1e-9 of a special class, K-C07-1 / K-C01-1)")
+    ctx.notes.append("input-diversity cases (gen_diversity_cases, both tiers): element types, option types, scale structure, sign / phase "
+                     "structure, call forms and sizes n = 1..8 for BaaLowRankInitialize(...).definition, the static initialize(...) on permuted "
+                     "qubit lists of wider multi-register hosts, and adaptive_approximation called directly; table at the head of that section")
     if ctx.quick:
         tie_helpers(ctx, 6)
         tie_local_partition(ctx, 6)
@@ -1114,6 +2220,7 @@ def run(ctx):
         cases += gen_cases(ctx, 6, 8, 6, nmin=6)
         cases += gen_entry_cases(ctx)
         cases += gen_boundary_cases(ctx)
+        cases += gen_diversity_cases(ctx)
     else:
         tie_helpers(ctx, 8)
         tie_local_partition(ctx, 8)
@@ -1122,6 +2229,7 @@ def run(ctx):
         cases += gen_cases(ctx, 7, 8, 10 ** 9, nmin=7)
         cases += gen_entry_cases(ctx)
         cases += gen_boundary_cases(ctx)
+        cases += gen_diversity_cases(ctx)
     _execute(ctx, cases)
 
 
@@ -1129,6 +2237,7 @@ def search(ctx, hints):
     global _CTX
     _CTX = ctx
     cases = gen_cases(ctx, 6, 16, 5)
+    cases += gen_diversity_cases(ctx)
     _execute(ctx, cases)
 
 
@@ -1136,6 +2245,9 @@ def replay(ctx, payload):
     global _CTX
     _CTX = ctx
     r = payload["replay"]
+    if "case" in r:            # input-diversity case: the case dictionary itself (element-type tag, call form, host layout, ...)
+        _execute(ctx, [r["case"]])
+        return
     opt = r["opt"]
     c = {"n": r["n"], "kind": r.get("kind", "replay"), "vec": r["vector"], "l": opt["max_fidelity_loss"],
          "s": opt["strategy"], "u": opt["use_low_rank"], "c": opt["max_combination_size"], "tag": r.get("tag", "replay"),
